@@ -55,10 +55,10 @@ type Verifier struct {
 	pureCalls        map[string]bool
 	symDepth         int
 	opaqueCalls      bool
-	cutFired         map[int]bool // cuts of the function under analysis that matched an anchor on some path of some partition
-	nullableResults  bool // option nullable-results
+	cutFired         map[int]bool     // cuts of the function under analysis that matched an anchor on some path of some partition
+	nullableResults  bool             // option nullable-results
 	opaqueWrites     map[string][]int // option opaque-writes F:k: the opaque callee F overwrites what its k-th argument (receiver = 0) points to
-	structSlices     bool // option struct-slices: slices of scalar-leaf aggregates are modelled leaf by leaf (SoAV)
+	structSlices     bool             // option struct-slices: slices of scalar-leaf aggregates are modelled leaf by leaf (SoAV)
 	escaped          map[*Object]bool
 	contains         map[*Object][]Value
 	opaqueNames      map[string]bool
